@@ -11,3 +11,5 @@ open Martian.Props.C16
 #print axioms postdata_json_roundtrip
 #print axioms content_json_roundtrip
 #print axioms logged_content_is_base64
+#print axioms late_invalid_byte_is_not_text
+#print axioms late_invalid_byte_is_base64
